@@ -10,6 +10,8 @@ import hashlib
 import importlib
 import json
 import os
+import signal
+import threading
 import random
 import re
 import shutil
@@ -220,6 +222,14 @@ def err_of(exc):
 # worker: run the implementation (+oracle) on one case
 # --------------------------------------------------------------------------------------------
 
+class CaseTimeout(BaseException):
+    pass
+
+
+def _case_alarm(signum, frame):
+    raise CaseTimeout()
+
+
 def impl_raised(obs):
     return isinstance(obs, dict) and 'impl_exception' in obs and len(obs) <= 2
 
@@ -231,8 +241,23 @@ def _impl_worker(args):
     cwd = os.getcwd()
     try:
         os.chdir(work)
+        limit = int(getattr(mod, 'CASE_TIMEOUT', 300))
+        use_alarm = not getattr(mod, 'OWN_ALARM', False) and hasattr(signal, 'SIGALRM') and \
+            threading.current_thread() is threading.main_thread()
         try:
-            obs = mod.run_impl(inp, work)
+            if use_alarm:
+                signal.signal(signal.SIGALRM, _case_alarm)
+                signal.alarm(limit)
+            try:
+                obs = mod.run_impl(inp, work)
+            finally:
+                if use_alarm:
+                    signal.alarm(0)
+        except CaseTimeout:
+            # a call into the library that does not come back (a dead-locked worker pool, a loop that never advances):
+            # reported as a failure of that case, never as a hanging check
+            return idx, {'impl_exception': 'Timeout', 'where': 'no return within %d s' % limit}, \
+                ['hang: the library did not return within %d s on this case' % limit], True
         except Exception as e:
             # run_impl catches the errors the library is ALLOWED to raise.  What arrives here is either a defect of the
             # harness (no frame of the library on the stack: infrastructure, exit 2) or the library raising inside a
